@@ -100,6 +100,9 @@ type ChainCfg struct {
 func TypeField(fa *ssa.FieldAddr) string {
 	t := Deref(fa.X.Type())
 	name := types.TypeString(t, func(*types.Package) string { return "" })
+	if n, ok := t.(*types.Named); ok {
+		name = TypeName(n)
+	}
 	return name + "." + fieldName(fa.X.Type(), fa.Field)
 }
 
